@@ -431,7 +431,52 @@ def generate(repo, template_path, unit):
             emit('\n', None)
         else:
             raise GenError('template line %d: unknown directive //@%s' % (i + 1, d))
-    return '\n'.join(out_lines) + '\n', linemap, fninfos
+    text = '\n'.join(out_lines) + '\n'
+    # ---- auto-include: `const` / `static` items of the same source file that an extracted function refers to and that the
+    # template does not declare (a change may introduce a new named constant; constants carry their value, so including
+    # them is sound and keeps such a change decidable instead of "cannot find value").  Recursive over const initialisers.
+    declared = set(re.findall(r'(?<![A-Za-z0-9_])(?:const|static)\s+(?:mut\s+)?([A-Z][A-Z0-9_]*)\s*:', text))
+    extra = []
+    work = [(fi['file'], None) for fi in fninfos if fi.get('kind') != 'item']
+    seen_files = {}
+    body_of = {}
+    for fi in fninfos:
+        if fi.get('kind') == 'item':
+            continue
+    pending_text = text
+    changed = True
+    rounds = 0
+    while changed and rounds < 5:
+        changed = False
+        rounds += 1
+        for rel in sorted({fi['file'] for fi in fninfos}):
+            src, m, items = load(repo, rel)
+            for it in items:
+                if it.kind in ('const', 'static') and it.owner is None and it.name not in declared:
+                    if re.search(r'(?<![A-Za-z0-9_:.])' + re.escape(it.name) + r'(?![A-Za-z0-9_])', pending_text):
+                        item_text = strip_attrs_and_docs(src[it.sig_start:it.end])
+                        # only plain literal / arithmetic initialisers are taken automatically
+                        init = item_text.split('=', 1)[1] if '=' in item_text else ''
+                        if re.fullmatch(r'[\s0-9A-Za-z_+\-*/<>()|&^%;:usizei]*', init or ''):
+                            extra.append((rel, it.name, item_text))
+                            declared.add(it.name)
+                            pending_text += '\n' + item_text
+                            changed = True
+    if extra:
+        block = '\n'.join('// auto-included from %s (referenced by an extracted function)\n%s' % (rel, t) for rel, n, t in extra)
+        marker = '} // verus!'
+        pos = text.rfind(marker)
+        if pos >= 0:
+            add = block + '\n'
+            text = text[:pos] + add + text[pos:]
+            nl = add.count('\n')
+            at = text[:pos].count('\n')
+            for _ in range(nl):
+                linemap.insert(at, None)
+            for rel, n, t in extra:
+                fninfos.append({'unit': unit, 'file': rel, 'item': 'const %s (auto-included)' % n, 'sha256': hashlib.sha256(t.encode()).hexdigest(),
+                                'tags': [], 'external_body': False, 'substitutions': [], 'src_line': 0, 'kind': 'item'})
+    return text, linemap, fninfos
 
 
 if __name__ == '__main__':
